@@ -464,9 +464,31 @@ func genC02base(prop, tier string, r *rand.Rand) *Scn {
 			g.sc.Root = n.ID
 			g.sc.Runs = len(n.Visits)
 		case 1:
-			n := g.batch(batchOpts{maxItems: 8, maxConc: 4, nv: 1 + r.IntN(2)})
+			// per-item budgets hold in either error mode: an item that is started
+			// gets its full treatment (stop mode: all or nothing per item)
+			n := g.batch(batchOpts{maxItems: 8, maxConc: 4, nv: 1 + r.IntN(2), stopP: 0.35})
 			g.sc.Root = n.ID
 			g.sc.Runs = len(n.Visits)
+			if n.config().Stop { // error results do not count as failures for stopping: keep them out
+				for v := range n.Visits {
+					for i := range n.Visits[v].Items {
+						for a := range n.Visits[v].Items[i].Exec {
+							if n.Visits[v].Items[i].Exec[a].Fail == "errres" {
+								n.Visits[v].Items[i].Exec[a] = Outcome{Pay: "int"}
+							}
+						}
+					}
+				}
+				if g.chance(0.5) {
+					for v := range n.Visits {
+						for i := range n.Visits[v].Items {
+							for a := range n.Visits[v].Items[i].Exec {
+								n.Visits[v].Items[i].Exec[a].SleepMs = 10 * g.r.IntN(4)
+							}
+						}
+					}
+				}
+			}
 		default:
 			g.sc.Root = g.tree(1+r.IntN(4), 1+r.IntN(2), 0.3)
 		}
